@@ -442,7 +442,7 @@ class Lexer:
             func_content,
             file_path_str,
             command[3].line,
-            command[3].col,
+            command[3].col + 1,
             tokenizer.file_string,
             func_path,
             command[1],
@@ -783,7 +783,7 @@ class Lexer:
             class_content,
             file_path_str,
             line=command[2].line,
-            col=command[2].col,
+            col=command[2].col + 1,
             file_string=tokenizer.file_string,
         )
 
